@@ -285,6 +285,7 @@ package evaluator
 //@   ensures  forall k int :: {result(k)} {arg1(k)} 0 <= k && k < ncalls - 1 ==> !isT(result(k), *object.PanErr)
 //@   ensures  err == nil ==> ncalls == len(deferObjs) && (ncalls >= 1 ==> !isT(result(ncalls - 1), *object.PanErr))
 //@   ensures  err != nil ==> ncalls >= 1 && ncalls <= len(deferObjs) && err == result(ncalls - 1)
+//@   ensures  len(deferObjs) == 0 ==> err == nil
 //@   assigns  EC
 //@   loop 1 invariant ncalls == rangeindex + 1 && ncalls <= len(deferObjs)
 //@   loop 1 invariant forall k int :: {result(k)} {arg1(k)} 0 <= k && k < ncalls ==> called(k, evaluator.Eval) && arg1(k) == deferObjs[k].Node && arg2(k) == env && !isT(result(k), *object.PanErr)
@@ -296,6 +297,7 @@ package evaluator
 //@   ensures  called(1, evaluator.evalDefer) && sliceArg(1) == sliceRes(0) && arg1(1) == env
 //@   ensures  result(1) != nil ==> res == result(1)
 //@   ensures  result(1) == nil ==> res == result(0)
+//@   ensures  len(stmts) == 0 ==> res == object.BuiltInNil
 //@   assigns  EC
 //
 // ---- C05: property resolution on the call path -------------------------------------------------
